@@ -28,24 +28,26 @@ import (
 	"time"
 
 	"github.com/anishathalye/porcupine"
+	"github.com/iotaledger/hive.go/ierrors"
 	"github.com/iotaledger/hive.go/kvstore"
 	"github.com/iotaledger/hive.go/kvstore/debug"
 	"github.com/iotaledger/hive.go/kvstore/flushkv"
 	"github.com/iotaledger/hive.go/kvstore/mapdb"
 	"verif/harness/internal/faultkv"
+	"verif/harness/internal/gdump"
 	"verif/harness/internal/vf"
 )
 
 // ---------------------------------------------------------------- case description
 
 type op struct {
-	K      string `json:"k"` // value: get has set del cinc cnc cfail cconst kvs; store: get has set del iter iterk delp clear kvs rawset
+	K      string `json:"k"` // value: get has set del cinc cnc cncw cfail cconst kvs; store: get has set del iter iterk delp clear kvs rawset
 	Key    string `json:"key,omitempty"`
 	V      int64  `json:"v,omitempty"`
 	Prefix string `json:"prefix,omitempty"`
 	Stop   int    `json:"stop,omitempty"` // iter: callback returns false after this many entries (0 = never)
 	Back   bool   `json:"back,omitempty"`
-	Raw    string `json:"raw,omitempty"` // rawset: "valid" | "garbage" bytes written directly into the raw store
+	Raw    string `json:"raw,omitempty"` // rawset: "valid" | "garbage" bytes written directly into the raw store; cncw: how the sentinel is wrapped (wrapKinds); cfail: "nf" = the function's error also wraps ErrKeyNotFound
 }
 
 type initEnt struct {
@@ -55,9 +57,10 @@ type initEnt struct {
 }
 
 type caseRec struct {
-	Target string    `json:"target"`          // value | store
-	Codec  string    `json:"codec,omitempty"` // "" = fixed (8 bytes) | varlen (0 -> zero bytes, 1..255 -> one byte)
-	View   *viewRec  `json:"view,omitempty"`  // nil = the typed view is built directly on the fault-injecting wrapper of a root mapdb
+	Target string    `json:"target"`           // value | store
+	Flavor string    `json:"flavor,omitempty"` // every injected failure additionally wraps a sentinel the typed layer interprets elsewhere: "nf" ErrKeyNotFound (not on store Get, where it MEANS absent) | "nc" ErrTypedValueNotChanged
+	Codec  string    `json:"codec,omitempty"`  // "" = fixed (8 bytes) | varlen (0 -> zero bytes, 1..255 -> one byte)
+	View   *viewRec  `json:"view,omitempty"`   // nil = the typed view is built directly on the fault-injecting wrapper of a root mapdb
 	Init   []initEnt `json:"init"`
 	Ops    []op      `json:"ops"`
 	Faults []int     `json:"faults"`          // 1-based fallible sites that fail
@@ -156,6 +159,8 @@ type runResult struct {
 	viewOps    map[string]int // steps executed through a typed view whose underlying KVStore has a NON-EMPTY realm, by operation
 	debugCalls int            // access callbacks of a debug wrapper in the stack
 	flushVoid  bool           // run ended (not judged further) at a failing Flush of a flush-on-write wrapper above the injector
+	nfWrapped  int            // lookups answered with an error WRAPPING ErrKeyNotFound
+	wrappedNC  int            // compute functions that aborted with a wrapped ErrTypedValueNotChanged
 	voidView   bool           // the wrapper chain itself reported another realm than the chain of WithRealm/WithExtendedRealm calls asks for
 
 	wantTrace bool
@@ -182,6 +187,104 @@ func errStr(err error) string {
 	return s
 }
 
+// wrapKinds: the ways in which a sentinel can reach the typed layer other than bare. The
+// typed layer matches sentinels with errors.Is semantics (ierrors.Is), so every one of them
+// must be treated exactly like the bare sentinel.
+var wrapKinds = []string{"fmt", "ierr", "join", "joinr", "deep"}
+
+var errOther = errors.New("harness: some other error")
+
+func wrapSentinel(s error, kind string) error {
+	switch kind {
+	case "fmt":
+		return fmt.Errorf("annotated: %w", s)
+	case "ierr":
+		return ierrors.Wrap(s, "annotated")
+	case "join":
+		return errors.Join(s, errOther)
+	case "joinr":
+		return errors.Join(errOther, s)
+	case "deep":
+		return fmt.Errorf("outer: %w", ierrors.Wrapf(fmt.Errorf("inner: %w", s), "middle %d", 1))
+	}
+	return s
+}
+
+// flavored adds the case's flavor sentinel to an injected failure.
+func flavored(err error, flavor string) error {
+	switch flavor {
+	case "nf":
+		return fmt.Errorf("%w [%w]", err, kvstore.ErrKeyNotFound)
+	case "nc":
+		return fmt.Errorf("%w [%w]", err, kvstore.ErrTypedValueNotChanged)
+	}
+	return err
+}
+
+// errMapKV is a KVStore wrapper of the harness that rewrites the errors of the store below it.
+type errMapKV struct {
+	kvstore.KVStore
+	f func(method string, err error) error
+}
+
+func (e *errMapKV) WithRealm(r kvstore.Realm) (kvstore.KVStore, error) {
+	s, err := e.KVStore.WithRealm(r)
+	if err != nil {
+		return nil, err
+	}
+	return &errMapKV{s, e.f}, nil
+}
+func (e *errMapKV) WithExtendedRealm(r kvstore.Realm) (kvstore.KVStore, error) {
+	s, err := e.KVStore.WithExtendedRealm(r)
+	if err != nil {
+		return nil, err
+	}
+	return &errMapKV{s, e.f}, nil
+}
+func (e *errMapKV) Get(k kvstore.Key) (kvstore.Value, error) {
+	v, err := e.KVStore.Get(k)
+	return v, e.f("Get", err)
+}
+func (e *errMapKV) Has(k kvstore.Key) (bool, error) {
+	h, err := e.KVStore.Has(k)
+	return h, e.f("Has", err)
+}
+func (e *errMapKV) Set(k kvstore.Key, v kvstore.Value) error { return e.f("Set", e.KVStore.Set(k, v)) }
+func (e *errMapKV) Delete(k kvstore.Key) error               { return e.f("Delete", e.KVStore.Delete(k)) }
+func (e *errMapKV) DeletePrefix(p kvstore.KeyPrefix) error {
+	return e.f("DeletePrefix", e.KVStore.DeletePrefix(p))
+}
+func (e *errMapKV) Clear() error { return e.f("Clear", e.KVStore.Clear()) }
+func (e *errMapKV) Flush() error { return e.f("Flush", e.KVStore.Flush()) }
+func (e *errMapKV) Iterate(p kvstore.KeyPrefix, c kvstore.IteratorKeyValueConsumerFunc, d ...kvstore.IterDirection) error {
+	return e.f("Iterate", e.KVStore.Iterate(p, c, d...))
+}
+func (e *errMapKV) IterateKeys(p kvstore.KeyPrefix, c kvstore.IteratorKeyConsumerFunc, d ...kvstore.IterDirection) error {
+	return e.f("IterateKeys", e.KVStore.IterateKeys(p, c, d...))
+}
+
+// nfWrap: a store that reports absence as an error WRAPPING ErrKeyNotFound (as a remote or
+// decorated store would) - under errors.Is semantics that still means "absent".
+func nfWrap(s kvstore.KVStore, n *int) kvstore.KVStore {
+	return &errMapKV{s, func(m string, err error) error {
+		if m == "Get" && err != nil && errors.Is(err, kvstore.ErrKeyNotFound) && !errors.Is(err, faultkv.ErrInjected) {
+			*n++
+			return fmt.Errorf("lookup failed: %w", err)
+		}
+		return err
+	}}
+}
+
+// flavorWrap decorates the injected failures of the store calls (see caseRec.Flavor).
+func flavorWrap(s kvstore.KVStore, flavor string) kvstore.KVStore {
+	return &errMapKV{s, func(m string, err error) error {
+		if err == nil || !errors.Is(err, faultkv.ErrInjected) || (m == "Get" && flavor == "nf") {
+			return err
+		}
+		return flavored(err, flavor)
+	}}
+}
+
 func opName(target string, o op) string {
 	t := "TypedValue."
 	if target == "store" {
@@ -202,6 +305,8 @@ func opName(target string, o op) string {
 		return t + "Compute(const)"
 	case "cnc":
 		return t + "Compute(ErrTypedValueNotChanged)"
+	case "cncw":
+		return t + "Compute(wrapped ErrTypedValueNotChanged)"
 	case "cfail":
 		return t + "Compute(fails)"
 	case "iter":
@@ -236,7 +341,7 @@ type realmStep struct {
 }
 
 type viewRec struct {
-	Layers   []string    `json:"layers,omitempty"`   // bottom-up: "fault" (exactly once), "flush", "debug"; empty = ["fault"]
+	Layers   []string    `json:"layers,omitempty"`   // bottom-up: "fault" (exactly once), "flush", "debug", "nfwrap"; empty = ["fault"]
 	StepsAt  int         `json:"steps_at,omitempty"` // the realm chain is applied on top of this many layers (0 = on the root mapdb itself)
 	Steps    []realmStep `json:"steps,omitempty"`
 	Siblings []initEnt   `json:"siblings,omitempty"` // root keys outside the realm (entries that start with the realm are ignored)
@@ -326,6 +431,11 @@ func buildWorld(cr caseRec, in *faultkv.Injector, res *runResult) *world {
 		switch layers[i] {
 		case "fault":
 			cur = faultkv.Wrap(cur, in)
+			if cr.Flavor != "" {
+				cur = flavorWrap(cur, cr.Flavor)
+			}
+		case "nfwrap":
+			cur = nfWrap(cur, &res.nfWrapped)
 		case "flush":
 			cur = flushkv.New(cur)
 		case "debug":
@@ -454,13 +564,13 @@ func runValue(cr caseRec, in *faultkv.Injector, w *world, model map[string][]byt
 	cd := codecOf(cr)
 	enc := func(v int64) ([]byte, error) {
 		if err := in.FailHere("enc.value"); err != nil {
-			return nil, err
+			return nil, flavored(err, cr.Flavor)
 		}
 		return cd.enc(v), nil
 	}
 	dec := func(b []byte) (int64, int, error) {
 		if err := in.FailHere("dec.value"); err != nil {
-			return 0, 0, err
+			return 0, 0, flavored(err, cr.Flavor)
 		}
 		return cd.dec(b)
 	}
@@ -504,14 +614,20 @@ func runValue(cr caseRec, in *faultkv.Injector, w *world, model map[string][]byt
 				if tv.KVStore() != st {
 					err = errors.New("KVStore() does not return the store the TypedValue was built on")
 				}
-			case "cinc", "cnc", "cfail", "cconst":
+			case "cinc", "cnc", "cncw", "cfail", "cconst":
 				gotV, err = tv.Compute(func(c int64, ex bool) (int64, error) {
 					fnCalls++
 					fnCur, fnExists = c, ex
 					switch o.K {
 					case "cnc":
 						return 0, kvstore.ErrTypedValueNotChanged
+					case "cncw":
+						res.wrappedNC++
+						return 0, wrapSentinel(kvstore.ErrTypedValueNotChanged, o.Raw)
 					case "cfail":
+						if o.Raw == "nf" {
+							return 0, fmt.Errorf("%w (%w)", errCompute, kvstore.ErrKeyNotFound)
+						}
 						return 0, errCompute
 					case "cconst":
 						return o.V, nil
@@ -640,7 +756,7 @@ func runValue(cr caseRec, in *faultkv.Injector, w *world, model map[string][]byt
 					}
 					write(want)
 				}
-			case "cnc":
+			case "cnc", "cncw":
 				if garbage {
 					if err == nil {
 						bad("error-not-reported", "returned nil error but the current raw bytes cannot be decoded")
@@ -648,7 +764,7 @@ func runValue(cr caseRec, in *faultkv.Injector, w *world, model map[string][]byt
 					break
 				}
 				if err != nil {
-					bad("spurious-error", "Compute(ErrTypedValueNotChanged) must return nil, got: "+errStr(err))
+					bad("spurious-error", "a compute function that aborts with (an error that errors.Is) ErrTypedValueNotChanged makes Compute return (current, nil), got: "+errStr(err))
 				} else {
 					checkFn()
 					if exists && gotV != cur {
@@ -693,27 +809,27 @@ func runStore(cr caseRec, in *faultkv.Injector, w *world, model map[string][]byt
 	ts := kvstore.NewTypedStore[string, int64](st,
 		func(k string) ([]byte, error) {
 			if err := in.FailHere("enc.key"); err != nil {
-				return nil, err
+				return nil, flavored(err, cr.Flavor)
 			}
 			return encK(k)
 		},
 		func(b []byte) (string, int, error) {
 			if err := in.FailHere("dec.key"); err != nil {
-				return "", 0, err
+				return "", 0, flavored(err, cr.Flavor)
 			}
 			return decK(b)
 		},
 		func(v int64) ([]byte, error) {
 			valueCodecCalls++
 			if err := in.FailHere("enc.value"); err != nil {
-				return nil, err
+				return nil, flavored(err, cr.Flavor)
 			}
 			return cd.enc(v), nil
 		},
 		func(b []byte) (int64, int, error) {
 			valueCodecCalls++
 			if err := in.FailHere("dec.value"); err != nil {
-				return 0, 0, err
+				return 0, 0, flavored(err, cr.Flavor)
 			}
 			return cd.dec(b)
 		})
@@ -958,8 +1074,8 @@ func runStore(cr caseRec, in *faultkv.Injector, w *world, model map[string][]byt
 
 // ---------------------------------------------------------------- generation
 
-var valueKinds = []string{"get", "has", "set", "del", "cinc", "cnc", "cfail"}
-var valueKindsC = []string{"get", "has", "set", "del", "cinc", "cnc", "cfail", "cconst"}
+var valueKinds = []string{"get", "has", "set", "del", "cinc", "cnc", "cfail", "cncw"}
+var valueKindsC = []string{"get", "has", "set", "del", "cinc", "cnc", "cfail", "cconst", "cncw"}
 
 func valueInits() [][]initEnt {
 	return [][]initEnt{nil, {{Key: "tv", State: "present", V: 5}}, {{Key: "tv", State: "garbage"}}}
@@ -984,6 +1100,10 @@ func genCodec(rng *rand.Rand) string {
 	return ""
 }
 
+func genFlavor(rng *rand.Rand) string {
+	return []string{"", "", "", "", "nf", "nc"}[rng.Intn(6)]
+}
+
 func genValueCase(rng *rand.Rand) caseRec {
 	cr := caseRec{Target: "value", Codec: genCodec(rng)}
 	switch rng.Intn(3) {
@@ -1002,11 +1122,18 @@ func genValueCase(rng *rand.Rand) caseRec {
 		if k == "set" || k == "cconst" {
 			o.V = genVal(rng, cr.Codec)
 		}
+		if k == "cncw" {
+			o.Raw = wrapKinds[rng.Intn(len(wrapKinds))]
+		}
+		if k == "cfail" && rng.Intn(2) == 0 {
+			o.Raw = "nf"
+		}
 		if rng.Intn(30) == 0 {
 			o = op{K: "kvs"}
 		}
 		cr.Ops = append(cr.Ops, o)
 	}
+	cr.Flavor = genFlavor(rng)
 	return cr
 }
 
@@ -1063,6 +1190,7 @@ func genStoreCase(rng *rand.Rand) caseRec {
 		}
 		cr.Ops = append(cr.Ops, o)
 	}
+	cr.Flavor = genFlavor(rng)
 	return cr
 }
 
@@ -1073,6 +1201,7 @@ var layerStacks = [][]string{
 	{"flush", "fault"}, {"fault", "flush"},
 	{"debug", "fault"}, {"fault", "debug"},
 	{"flush", "debug", "fault"}, {"fault", "debug", "flush"},
+	{"nfwrap", "fault"}, {"fault", "nfwrap"},
 }
 
 // realm pieces: prefixes of / equal to the encoded keys of the cases ("a", "ab", "b", "tv", "a!"),
@@ -1231,6 +1360,9 @@ func viewPart(c *vf.Ctx, workers, chunk, pairs int) {
 				if k1 == "set" {
 					o1.V = 10
 				}
+				if k1 == "cncw" {
+					o1.Raw = wrapKinds[len(cases)%len(wrapKinds)]
+				}
 				cases = append(cases, caseRec{Target: "value", View: v, Init: init, Ops: []op{o1, {K: "get"}}})
 				if len(v.layers()) > 2 {
 					continue
@@ -1239,6 +1371,9 @@ func viewPart(c *vf.Ctx, workers, chunk, pairs int) {
 					o2 := op{K: k2}
 					if k2 == "set" {
 						o2.V = 20
+					}
+					if k2 == "cncw" {
+						o2.Raw = wrapKinds[len(cases)%len(wrapKinds)]
 					}
 					cases = append(cases, caseRec{Target: "value", View: v, Init: init, Ops: []op{o1, o2, {K: "has"}}})
 				}
@@ -1297,6 +1432,7 @@ type stats struct {
 	viols                                     []pending
 
 	viewRuns, viewSteps, debugCalls, flushVoid, voidView int
+	nfWrapped, wrappedNC, flavored                       int
 }
 
 type pending struct {
@@ -1306,7 +1442,7 @@ type pending struct {
 
 func caseHash(cr caseRec, fault int) uint64 {
 	h := fnv.New64a()
-	fmt.Fprintf(h, "%s|%s|%v|%v|%d|%s", cr.Target, cr.Codec, cr.Init, cr.Ops, fault, cr.View.key())
+	fmt.Fprintf(h, "%s|%s|%s|%v|%v|%d|%s", cr.Target, cr.Codec, cr.Flavor, cr.Init, cr.Ops, fault, cr.View.key())
 	return h.Sum64()
 }
 
@@ -1329,6 +1465,11 @@ func record(st *stats, r runResult, cr caseRec) {
 		st.viewSteps += n
 	}
 	st.debugCalls += r.debugCalls
+	st.nfWrapped += r.nfWrapped
+	st.wrappedNC += r.wrappedNC
+	if cr.Flavor != "" && len(r.fired) > 0 {
+		st.flavored++
+	}
 	if r.flushVoid {
 		st.flushVoid++
 	}
@@ -1401,6 +1542,9 @@ func merge(c *vf.Ctx, st *stats) {
 	c.Count("keys_only_ops", st.keysOnly)
 	c.Count("value_codec_calls_inside_keys_only_ops", st.vcInKeysOnly)
 	c.Count("noop_writes_same_bytes", st.noop)
+	c.Count("sentinel_wrapped_not_changed_computes", st.wrappedNC)
+	c.Count("sentinel_wrapped_not_found_lookups", st.nfWrapped)
+	c.Count("sentinel_flavored_fault_runs", st.flavored)
 	c.Count("view_runs", st.viewRuns)
 	c.Count("view_steps_nonempty_realm", st.viewSteps)
 	c.Count("view_debug_wrapper_callbacks", st.debugCalls)
@@ -1441,6 +1585,8 @@ func sequentialPart(c *vf.Ctx) {
 					for i := l - 1; i >= 0; i-- {
 						ops[i] = op{K: kinds[x%len(kinds)]}
 						switch {
+						case ops[i].K == "cncw":
+							ops[i].Raw = wrapKinds[(i+idx)%len(wrapKinds)]
 						case codec == "varlen" && ops[i].K == "set":
 							ops[i].V = []int64{0, 7}[i%2] // 0 encodes to zero bytes
 						case ops[i].K == "set":
@@ -1463,7 +1609,7 @@ func sequentialPart(c *vf.Ctx) {
 		merge(c, st)
 	})
 	c.Count("histories_exhaustive_value", len(exh))
-	c.Extra("exhaustive_bound", fmt.Sprintf("TypedValue: all histories of length <= %d over {Get, Has, Set, Delete, Compute(inc), Compute(NotChanged), Compute(fails)} x initial raw state {absent, present, undecodable} with the fixed-width codec, and the same plus Compute(const 0) and initial state present-with-zero-length-bytes under a variable-length codec (0 -> zero bytes, 1..255 -> one byte), each with every single fallible site failing", exhLen))
+	c.Extra("exhaustive_bound", fmt.Sprintf("TypedValue: all histories of length <= %d over {Get, Has, Set, Delete, Compute(inc), Compute(NotChanged), Compute(NotChanged wrapped fmt/ierrors/Join/deep), Compute(fails)} x initial raw state {absent, present, undecodable} with the fixed-width codec, and the same plus Compute(const 0) and initial state present-with-zero-length-bytes under a variable-length codec (0 -> zero bytes, 1..255 -> one byte), each with every single fallible site failing", exhLen))
 
 	// (2) seeded histories (length 1..8) on TypedValue and TypedStore
 	n := c.Pick(20000, 1500000)
@@ -1574,9 +1720,13 @@ type concReplay struct {
 
 var tick atomic.Int64
 
-func newStressStore(rng *rand.Rand) (kvstore.KVStore, kvstore.KVStore) {
+func newStressStore(rng *rand.Rand, plan ...map[int]faultkv.Action) (kvstore.KVStore, kvstore.KVStore) {
 	inner := mapdb.NewMapDB()
-	in := faultkv.NewInjector(nil, false)
+	var pl map[int]faultkv.Action
+	if len(plan) > 0 {
+		pl = plan[0]
+	}
+	in := faultkv.NewInjector(pl, false)
 	jit := uint64(rng.Int63()) | 1
 	in.Jitter = func(site int64) {
 		x := uint64(site)*0x9E3779B97F4A7C15 ^ jit
@@ -1694,7 +1844,18 @@ func concurrentChild(c *vf.Ctx) {
 	for r := 0; r < roundsB; r++ {
 		g := 2 + rng.Intn(7)
 		per := 4 + rng.Intn(9)
-		st, inner := newStressStore(rng)
+		// every third round the store fails seeded calls (before applying them): such an operation must
+		// report the failure and - as far as every other operation can tell - not have happened
+		var plan map[int]faultkv.Action
+		if r%3 == 2 {
+			plan = map[int]faultkv.Action{}
+			for s := 1; s <= 3*g*per; s++ {
+				if rng.Intn(6) == 0 {
+					plan[s] = faultkv.Fail
+				}
+			}
+		}
+		st, inner := newStressStore(rng, plan)
 		if rng.Intn(2) == 0 {
 			inner.Set(tvKey, encV(7))
 		}
@@ -1718,6 +1879,7 @@ func concurrentChild(c *vf.Ctx) {
 		var wg sync.WaitGroup
 		var errs atomic.Int64
 		var errTxt atomic.Value
+		var injected atomic.Int64
 		start := make(chan struct{})
 		for gi := 0; gi < g; gi++ {
 			wg.Add(1)
@@ -1754,6 +1916,10 @@ func concurrentChild(c *vf.Ctx) {
 						})
 					}
 					e.Ret = tick.Add(1)
+					if err != nil && plan != nil && errors.Is(err, faultkv.ErrInjected) {
+						injected.Add(1)
+						continue
+					}
 					if err != nil {
 						errs.Add(1)
 						errTxt.Store(in.Op + ": " + err.Error())
@@ -1779,7 +1945,16 @@ func concurrentChild(c *vf.Ctx) {
 		e.Out, gerr = tv.Get()
 		e.Fnd = gerr == nil
 		e.Ret = tick.Add(1)
-		h = append(h, e)
+		if gerr == nil || errors.Is(gerr, kvstore.ErrKeyNotFound) {
+			h = append(h, e)
+		} else if !errors.Is(gerr, faultkv.ErrInjected) {
+			errs.Add(1)
+			errTxt.Store("final get: " + gerr.Error())
+		}
+		c.Count("mixed_injected_store_failures", int(injected.Load()))
+		if plan != nil {
+			c.Count("mixed_rounds_with_failing_store", 1)
+		}
 		e2 := histOp{G: g, Op: "rawget", Call: tick.Add(1)}
 		if b, err := inner.Get(tvKey); err == nil {
 			e2.Out, _, err = decV(b)
@@ -1804,6 +1979,320 @@ func concurrentChild(c *vf.Ctx) {
 		c.DistinctHash("concurrent_shapes", uint64(g*100+per))
 	}
 	c.Count("mixed_rounds", roundsB)
+
+	gatedPart(c, race)
+}
+
+// ---------------------------------------------------------------- gated windows with failing writes
+//
+// Scripted two-party schedules on one TypedValue: a reader's operation (Get, Has, Compute) is
+// PARKED inside its first store read (the store wrapper of the harness holds the call), a
+// writer then runs 1-4 operations of which seeded ones fail in the store (Set/Delete/Get
+// refused before being applied), the reader is released, everything completes, and Get/Has
+// through the TypedValue plus a raw read close the history. Whether the writer can run while
+// the read is parked (it cannot when the read happens under the object's lock, it can when it
+// happens outside) is observed structurally (gdump actor: returned or parked) and is NOT part
+// of any verdict. Verdicts: a refused store call must surface as an error carrying the
+// injected failure, and the history of all operations that did not fail must be linearizable
+// under the register model - a failed write is treated as not having happened, which is what
+// the unchanged code guarantees (store refused it, cache untouched).
+
+type gatePlan struct {
+	parkRead  atomic.Int32 // 1: the next store read parks before it reads, 2: after it has read (its result is then as old as the park is long)
+	failWrite atomic.Bool
+	failRead  atomic.Bool
+	fired     atomic.Int64
+}
+
+type gateKV struct {
+	kvstore.KVStore
+	plans   map[uint64]*gatePlan // by goroutine id; fixed after construction
+	parked  chan struct{}
+	release chan struct{}
+}
+
+func (g *gateKV) read(p *gatePlan) error {
+	if p == nil {
+		return nil
+	}
+	if p.parkRead.CompareAndSwap(1, 0) {
+		g.parked <- struct{}{}
+		<-g.release
+	}
+	if p.failRead.CompareAndSwap(true, false) {
+		p.fired.Add(1)
+		return fmt.Errorf("%w (gated store read)", faultkv.ErrInjected)
+	}
+	return nil
+}
+
+func (g *gateKV) afterRead(p *gatePlan) {
+	if p != nil && p.parkRead.CompareAndSwap(2, 0) {
+		g.parked <- struct{}{}
+		<-g.release
+	}
+}
+
+func (g *gateKV) write() error {
+	p := g.plans[gdump.GoID()]
+	if p != nil && p.failWrite.CompareAndSwap(true, false) {
+		p.fired.Add(1)
+		return fmt.Errorf("%w (gated store write)", faultkv.ErrInjected)
+	}
+	return nil
+}
+
+func (g *gateKV) Get(k kvstore.Key) (kvstore.Value, error) {
+	p := g.plans[gdump.GoID()]
+	if err := g.read(p); err != nil {
+		return nil, err
+	}
+	v, err := g.KVStore.Get(k)
+	g.afterRead(p)
+	return v, err
+}
+func (g *gateKV) Has(k kvstore.Key) (bool, error) {
+	p := g.plans[gdump.GoID()]
+	if err := g.read(p); err != nil {
+		return false, err
+	}
+	h, err := g.KVStore.Has(k)
+	g.afterRead(p)
+	return h, err
+}
+func (g *gateKV) Set(k kvstore.Key, v kvstore.Value) error {
+	if err := g.write(); err != nil {
+		return err
+	}
+	return g.KVStore.Set(k, v)
+}
+func (g *gateKV) Delete(k kvstore.Key) error {
+	if err := g.write(); err != nil {
+		return err
+	}
+	return g.KVStore.Delete(k)
+}
+
+type gatedOp struct {
+	Op   string `json:"op"` // get has set del cinc cnc
+	V    int64  `json:"v,omitempty"`
+	Fail string `json:"fail,omitempty"` // "w": the store refuses this operation's write; "r": its read
+}
+
+type gatedEp struct {
+	After bool      `json:"park_after_read,omitempty"` // the store read is held after it has read (else before)
+	R     gatedOp   `json:"parked"`
+	W     []gatedOp `json:"writer"`
+}
+
+type gatedScn struct {
+	Init     bool      `json:"init_present"`
+	Pre      string    `json:"pre,omitempty"` // operation run before the episodes (decides what is cached): "" has get cnc
+	Episodes []gatedEp `json:"episodes"`
+}
+
+func genGated(rng *rand.Rand) gatedScn {
+	sc := gatedScn{Init: rng.Intn(2) == 0, Pre: []string{"", "", "", "has", "get", "cnc"}[rng.Intn(6)]}
+	val := int64(1000)
+	wop := func() gatedOp {
+		val += 1000
+		switch rng.Intn(10) {
+		case 0, 1:
+			return gatedOp{Op: "set", V: val}
+		case 2, 3:
+			return gatedOp{Op: "set", V: val, Fail: "w"}
+		case 4:
+			return gatedOp{Op: "del"}
+		case 5:
+			return gatedOp{Op: "del", Fail: "w"}
+		case 6:
+			return gatedOp{Op: "cinc"}
+		case 7:
+			return gatedOp{Op: "cinc", Fail: []string{"w", "w", "r"}[rng.Intn(3)]}
+		case 8:
+			return gatedOp{Op: "get"}
+		}
+		return gatedOp{Op: "has"}
+	}
+	n := 1 + rng.Intn(2)
+	for i := 0; i < n; i++ {
+		ep := gatedEp{R: gatedOp{Op: []string{"get", "get", "get", "has", "cnc", "cinc"}[rng.Intn(6)]}}
+		ep.After = rng.Intn(3) != 0
+		if ep.R.Op == "cinc" && rng.Intn(3) == 0 {
+			ep.R.Fail = "w"
+		}
+		m := 1 + rng.Intn(4)
+		for j := 0; j < m; j++ {
+			ep.W = append(ep.W, wop())
+		}
+		sc.Episodes = append(sc.Episodes, ep)
+	}
+	return sc
+}
+
+type gatedRun struct {
+	c    *vf.Ctx
+	tv   *kvstore.TypedValue[int64]
+	g    *gateKV
+	mu   sync.Mutex
+	hist []histOp
+	bad  []violation
+}
+
+func (gr *gatedRun) do(gi int, o gatedOp) {
+	p := gr.g.plans[gdump.GoID()]
+	var f0 int64
+	if p != nil {
+		f0 = p.fired.Load()
+		p.failWrite.Store(o.Fail == "w")
+		p.failRead.Store(o.Fail == "r")
+	}
+	e := histOp{G: gi, Op: o.Op, In: o.V}
+	var err error
+	e.Call = tick.Add(1)
+	switch o.Op {
+	case "set":
+		err = gr.tv.Set(o.V)
+	case "del":
+		err = gr.tv.Delete()
+	case "get":
+		e.Out, err = gr.tv.Get()
+		e.Fnd = err == nil
+		if errors.Is(err, kvstore.ErrKeyNotFound) && !errors.Is(err, faultkv.ErrInjected) {
+			err = nil
+		}
+	case "has":
+		e.Fnd, err = gr.tv.Has()
+	case "cinc":
+		e.Out, err = gr.tv.Compute(func(cur int64, ex bool) (int64, error) {
+			if !ex {
+				return 1, nil
+			}
+			return cur + 1, nil
+		})
+	case "cnc":
+		e.Out, err = gr.tv.Compute(func(cur int64, ex bool) (int64, error) {
+			return 0, kvstore.ErrTypedValueNotChanged
+		})
+	}
+	e.Ret = tick.Add(1)
+	fired := false
+	if p != nil {
+		fired = p.fired.Load() > f0
+		p.failWrite.Store(false)
+		p.failRead.Store(false)
+	}
+	gr.mu.Lock()
+	defer gr.mu.Unlock()
+	switch {
+	case fired && err == nil:
+		gr.bad = append(gr.bad, violation{"concurrent/gated/" + o.Op + "/error-not-reported", "the store refused a call of " + o.Op + " but the operation returned nil"})
+	case fired && !errors.Is(err, faultkv.ErrInjected):
+		gr.bad = append(gr.bad, violation{"concurrent/gated/" + o.Op + "/wrong-error", "the store refused a call of " + o.Op + " but the returned error does not carry that failure: " + errStr(err)})
+	case fired:
+		gr.c.Count("gated_refused_operations", 1) // reported; must not have had any effect
+	case err != nil:
+		gr.bad = append(gr.bad, violation{"concurrent/gated/" + o.Op + "/unexpected-error", o.Op + " failed on a healthy store: " + errStr(err)})
+	default:
+		gr.hist = append(gr.hist, e)
+	}
+}
+
+func gatedPart(c *vf.Ctx, race bool) {
+	rng := c.Rand("gated")
+	rounds := c.Pick(2500, 60000)
+	if race {
+		rounds = c.Pick(500, 8000)
+	}
+	enc, dec := plainCodec()
+	R, W := gdump.NewActor("parked-reader"), gdump.NewActor("writer")
+	for r := 0; r < rounds; r++ {
+		sc := genGated(rng)
+		inner := mapdb.NewMapDB()
+		g := &gateKV{KVStore: inner, plans: map[uint64]*gatePlan{R.ID(): {}, W.ID(): {}}}
+		gr := &gatedRun{c: c, g: g}
+		if sc.Init {
+			inner.Set(tvKey, encV(7))
+			gr.hist = append(gr.hist, histOp{G: 3, Op: "set", In: 7, Call: -2, Ret: -1})
+		}
+		gr.tv = kvstore.NewTypedValue[int64](g, tvKey, enc, dec)
+		if sc.Pre != "" {
+			gr.do(2, gatedOp{Op: sc.Pre})
+		}
+		stuck := false
+		for _, ep := range sc.Episodes {
+			g.parked = make(chan struct{}, 1)
+			g.release = make(chan struct{})
+			rp := g.plans[R.ID()]
+			rp.parkRead.Store(1)
+			if ep.After {
+				rp.parkRead.Store(2)
+			}
+			rdone := make(chan struct{})
+			R.Start(func() { gr.do(0, ep.R); close(rdone) })
+			parked := false
+			select {
+			case <-g.parked:
+				parked = true
+			case <-rdone:
+			}
+			rp.parkRead.Store(0)
+			ws := W.Do(func() {
+				for _, o := range ep.W {
+					gr.do(1, o)
+				}
+			})
+			if parked {
+				c.Count("gated_parked_reads", 1)
+				if ws == gdump.Blocked {
+					c.Count("gated_writer_waited_for_the_parked_read", 1)
+				} else {
+					c.Count("gated_writer_ran_inside_the_parked_read", 1)
+				}
+				close(g.release)
+			}
+			if R.Settle() == gdump.Blocked || W.Settle() == gdump.Blocked {
+				stuck = true
+				break
+			}
+		}
+		if stuck {
+			c.Inconclusive("gated scenario: an operation stayed parked after the held store read was released")
+			return
+		}
+		gr.do(2, gatedOp{Op: "get"})
+		gr.do(2, gatedOp{Op: "has"})
+		e2 := histOp{G: 2, Op: "rawget", Call: tick.Add(1)}
+		if b, err := inner.Get(tvKey); err == nil {
+			e2.Out, _, err = decV(b)
+			e2.Fnd = err == nil
+		}
+		e2.Ret = tick.Add(1)
+		gr.hist = append(gr.hist, e2)
+
+		rep := map[string]any{"concurrent": "gated", "round": r, "scenario": sc, "history": gr.hist}
+		for _, b := range gr.bad {
+			c.Violation(b.fp, fmt.Sprintf("gated round %d: %s", r, b.what), rep)
+		}
+		switch checkHistory(gr.hist) {
+		case porcupine.Illegal:
+			c.Violation("concurrent/gated/not-linearizable", fmt.Sprintf("gated round %d: a store read of one operation was held while another goroutine's writes (some refused by the store) were issued; the %d operations that did not fail, closed by Get/Has and a raw read after everything had returned, have no linearization under the register model (a successfully written value was lost, or a refused write took effect)", r, len(gr.hist)), rep)
+		case porcupine.Unknown:
+			c.Count("porcupine_undecided", 1)
+		}
+		c.Count("gated_ops", len(gr.hist))
+		c.Count("evaluations", len(gr.hist))
+		c.DistinctHash("gated_scenarios", caseHashAny(sc))
+	}
+	c.Count("gated_rounds", rounds)
+	R.Close()
+	W.Close()
+}
+
+func caseHashAny(v any) uint64 {
+	h := fnv.New64a()
+	fmt.Fprintf(h, "%v", v)
+	return h.Sum64()
 }
 
 func child(c *vf.Ctx) {
@@ -1857,7 +2346,7 @@ func run(c *vf.Ctx) {
 		replay(c)
 		return
 	}
-	c.SetRule("sequential: a history (TypedValue: all of length <= 4 (quick) / 5 (thorough) plus seeded ones of length 1-8; TypedStore: seeded, length 1-8 over every exported method (Get, Has, Set, Delete, Iterate, IterateKeys, DeletePrefix, Clear, KVStore) plus raw writes behind the typed layer, three keys sharing prefixes, raw entries absent/present/undecodable value/undecodable key/both) is run fault-free to learn its N fallible sites (store calls and codec calls in one numbering), then N times with site i failing (plus seeded pairs of sites); one evaluation = one such run; distinct_nontrivial = distinct (history, failing site) in which the fault actually fired; fault_contexts = distinct (method, kind of failing site). views: the same histories with the typed object built on a KVStore other than a bare root store - a stack of {fault injector, flush-on-write wrapper, debug wrapper} over one root mapdb with a chain of 0-4 WithRealm/WithExtendedRealm calls applied at any level of the stack (realm pieces are prefixes of / equal to the encoded keys, unrelated, a zero byte, empty), the root store also holding entries outside the realm; a fixed matrix (10 realm chains x 7 stacks x every level, every single TypedStore operation incl. every prefix/direction/stop, all TypedValue histories of length <= 2) plus seeded ones; after every step the WHOLE root store is compared with model + outside entries; view_shapes = distinct (stack, level, chain). concurrent: one evaluation = one operation executed while 2-8 goroutines share one TypedValue")
+	c.SetRule("sequential: a history (TypedValue: all of length <= 4 (quick) / 5 (thorough) plus seeded ones of length 1-8; TypedStore: seeded, length 1-8 over every exported method (Get, Has, Set, Delete, Iterate, IterateKeys, DeletePrefix, Clear, KVStore) plus raw writes behind the typed layer, three keys sharing prefixes, raw entries absent/present/undecodable value/undecodable key/both) is run fault-free to learn its N fallible sites (store calls and codec calls in one numbering), then N times with site i failing (plus seeded pairs of sites); one evaluation = one such run; distinct_nontrivial = distinct (history, failing site) in which the fault actually fired; fault_contexts = distinct (method, kind of failing site). views: the same histories with the typed object built on a KVStore other than a bare root store - a stack of {fault injector, flush-on-write wrapper, debug wrapper} over one root mapdb with a chain of 0-4 WithRealm/WithExtendedRealm calls applied at any level of the stack (realm pieces are prefixes of / equal to the encoded keys, unrelated, a zero byte, empty), the root store also holding entries outside the realm; a fixed matrix (10 realm chains x 7 stacks x every level, every single TypedStore operation incl. every prefix/direction/stop, all TypedValue histories of length <= 2) plus seeded ones; after every step the WHOLE root store is compared with model + outside entries; view_shapes = distinct (stack, level, chain). sentinels: compute functions also abort with ErrTypedValueNotChanged wrapped five ways (fmt %w, ierrors.Wrap, errors.Join either side, nested) - to be treated as the bare sentinel (errors.Is semantics) - or fail with an error that also wraps ErrKeyNotFound; a store layer that reports absence as a wrapped ErrKeyNotFound; every injected codec/store failure optionally also wraps ErrKeyNotFound or ErrTypedValueNotChanged (never on a store Get, where ErrKeyNotFound means absent) and must still be reported and change nothing. concurrent: one evaluation = one operation executed while 2-8 goroutines share one TypedValue (every third mixed round over a store that refuses seeded calls; a refused operation must report it and is left out of the history); gated: one operation is parked inside its first store read (before or after the read) while a second goroutine issues 1-4 operations some of which the store refuses, 1-2 such episodes, closed by Get/Has/raw read - the non-failed operations must be linearizable")
 	sequentialPart(c)
 	c.SetExhaustive(false)
 	for _, race := range []bool{false, true} {
@@ -1898,9 +2387,16 @@ func run(c *vf.Ctx) {
 		"TypedValue.Get", "TypedValue.Has", "TypedValue.Set", "TypedValue.Delete", "TypedValue.Compute(inc)"} {
 		c.Require("viewop:"+m, 1000)
 	}
+	c.Require("sentinel_wrapped_not_changed_computes", 10000)
+	c.Require("sentinel_wrapped_not_found_lookups", 5000)
+	c.Require("sentinel_flavored_fault_runs", 5000)
 	c.Require("compute_only_calls", 10000)
 	c.Require("mixed_ops", 5000)
 	c.Require("overlapping_ops", 1000)
+	c.Require("gated_parked_reads", 2000)
+	c.Require("gated_refused_operations", 1500)
+	c.Require("gated_scenarios", 1500)
+	c.Require("mixed_injected_store_failures", 500)
 	c.Require("race_children", 1)
 	c.Assume("mapdb's realm views (WithRealm) address exactly the root keys that start with the realm; they serve as the reference access to the realm of a view")
 	c.Assume("mapdb itself never fails and applies each call atomically; faultkv fails a store call before applying it")
